@@ -1,5 +1,5 @@
 from .. import facts
-from ..rules import geometry, region, image, tables, gradient, opacity, status
+from ..rules import geometry, region, image, tables, gradient, opacity, status, alloc
 
 
 def run(ck):
@@ -10,6 +10,7 @@ def run(ck):
     image.r3_early_returns(ck, P)
     tables.r4_cache_key(ck, P)
     image.r5_alpha_count(ck, P)
+    alloc.r9_failure_is_atomic(ck, P, 'C14-R12')     # a refused setter leaves inputs and derived flags in agreement only if it stored nothing
     image.r_validated_before_use(ck, P, 'C14-R7')
     geometry.r1_clip_sources(ck, P)            # C03-R1: a clip that was reset must not clip (have_clip_region is the current property, the rectangles are stale)
     region.r5_4_success_writes_result(ck, P)   # C05-R4: a clip setter that reports success has replaced the clip
